@@ -181,7 +181,7 @@ def plan(tier, seed):
                       'residue names x ATOM/HETATM x own/other chain x 4 positions, %d other record types x positions, %d hydrogen names x '
                       'heavy atoms of one residue, 22 column rewrites (incl. values that differ between alternate locations); thorough: also every pair of edits from two different families '
                       '(first edit of each family per position class); options: default for all, --protonate-all and keep-protons feedback '
-                      'per input. non-trivial = distinct (input, edit)') % (len(IGNORABLE), len(OTHER_RECORDS), len(H_NAMES)),
+                      'per input. inputs also: multi-conformation layouts (edits applied in every conformation), a chain repeated without TER, alt-loc copies, an ion 2 A from a carboxylate, chains ending in OXT without TER; hydrogens after OXT and on alternate locations; keep-protons with and without --protonate-all on own and displaced hydrogens. non-trivial = distinct (input, edit)') % (len(IGNORABLE), len(OTHER_RECORDS), len(H_NAMES)),
                 bounds=dict(inputs=len(ins), max_simultaneous_edits=1 if tier == 'quick' else 2), samples=[ins[0]])
 
 
